@@ -45,8 +45,9 @@ def text_table(rng, nrows=None, kinds=None, order=None, nfields=None, exact=Fals
     if nrows is None:
         nrows = int(rng.choice([1, 2, 3, 10, 40], p=[.2, .2, .2, .2, .2]))
     kinds = kinds or (gen.INTS + ["S", "S"] if exact else TXT_KINDS)
-    bo = order or str(rng.choice(["<", ">"]))
-    descr = gen.rand_descr(rng, nfields=nfields, kinds=kinds, names=FIELD_NAMES, byteorders=(bo,), maxsub=maxsub)
+    bo = order or str(rng.choice(["<", ">", "mixed"], p=[.4, .35, .25]))
+    # ("mixed": every field draws its own byte order)
+    descr = gen.rand_descr(rng, nfields=nfields, kinds=kinds, names=FIELD_NAMES, byteorders=(bo,) if bo != "mixed" else ("<", ">"), maxsub=maxsub)
     a = np.zeros(nrows, dtype=descr)
     fill_text(rng, a)
     return a
